@@ -780,7 +780,7 @@ func TestVerifC14(t *testing.T) {
 	c14Primitives(t, out, r)
 
 	// 4. random configurations
-	n := vlib.Budget(6000, 150000)
+	n := vlib.Budget(12000, 150000)
 	for i := 0; i < n; i++ {
 		cfg := c14RandCfg(r)
 		k := 1 + r.Intn(4)
